@@ -11,6 +11,7 @@ mod props;
 mod refimpl;
 mod repl;
 mod rng;
+mod sched;
 mod world;
 
 use framework::{Tier, WorkerArgs};
